@@ -363,3 +363,19 @@ func released(addr uintptr) {
 		s.wake(addr)
 	}
 }
+
+// Opaque is a one-way signal between a goroutine the code under test spawned itself and the task that
+// waits for it, carried by a private pipe and raw system calls like the scheduler's own hand-off: the race
+// detector does not see it, so waiting for the goroutine to finish (which keeps the run a function of its
+// script) adds no happens-before edge between what the goroutine did and what the task does next.
+type Opaque struct{ p pipe }
+
+func NewOpaque() *Opaque { return &Opaque{p: newPipe()} }
+
+//go:norace
+func (o *Opaque) Signal() { o.p.signal(1) }
+
+//go:norace
+func (o *Opaque) Wait() { o.p.wait() }
+
+func (o *Opaque) Close() { o.p.close() }
